@@ -424,6 +424,9 @@ func (x *Exec) callFunction(caller *Frame, fn *ssa.Function, args []Value, binds
 	if fn.Blocks == nil {
 		notEncodable("call to function without body: %s at %s", name, x.framePos(caller, p))
 	}
+	if refuseUnmodelledBig(name) {
+		notEncodable("math/big method without a model: %s at %s", name, x.framePos(caller, p))
+	}
 	if refuseUnmodelledTime(name) {
 		notEncodable("time.Time method without a model: %s at %s", name, x.framePos(caller, p))
 	}
